@@ -25,6 +25,17 @@ out+=["","### 13.4 Hand-written mutations (selftest.py; applied to scratch copie
 for f in sorted(glob.glob(V+'/selftest/*.json')):
     for m in json.load(open(f)):
         out.append("| %s | %s | %s | %s | %s |"%(m['property'],m['name'],m['file'],m.get('result'),esc(', '.join(s.replace('sig=','') for s in m.get('sigs',[])[:2]))[:200]))
+import re
+walls={}
+for f in sorted(glob.glob(V+'/sweeps/*.log')):
+    for l in open(f):
+        m=re.match(r'(C\d+) tier=(\w+) seed=(\d+) exit=(\d+) violations=(\d+) wall=(\d+)s',l)
+        if m and m.group(4)=='0':
+            walls.setdefault(m.group(1),{})[m.group(2)]=(int(m.group(6)),m.group(3))
+out+=["","### 13.5 Measured wall time of the last silent run per check and tier (16 cores, warm caches, includes the harness build)","","| check | quick | thorough |","|---|---|---|"]
+for c in sorted(walls):
+    q=walls[c].get('quick'); t=walls[c].get('thorough')
+    out.append("| %s | %s | %s |"%(c, ("%d s (seed %s)"%q) if q else "-", ("%d s (seed %s)"%t) if t else "-"))
 s=open(V+'/DESIGN.md').read()
 if MARK in s: s=s[:s.index(MARK)]
 open(V+'/DESIGN.md','w').write(s.rstrip('\n')+'\n\n'+'\n'.join(out)+'\n')
